@@ -11,12 +11,12 @@ FUNCTIONS_ENCODED = ["Node.route_answer", "Node.send_message", "Node.remove_peer
                      "Node._receive_app_request", "Application.send_answer / generate_answer", "Node.receive_cer (reconnect)"]
 ASSUMPTIONS = ["hop-by-hop ids are drawn from a 5-element pool (the node only compares them and uses them as keys: data-independence)",
                "requests arrive in a fixed order; answer order, duplicate submission, fault kind and fault point are solver-chosen"]
-BOUNDS = {"quick": "2 peers, 3 concurrent requests (2 on one connection), every assignment of pool ids (equal ids on different connections included unless the known finding is active), every order of answer submission, a duplicate submission, one fault in {none, requester gone, requester DPR, requester reconnects, other peer gone} at every point between arrival and submission",
+BOUNDS = {"quick": "2 peers, 3 concurrent requests (2 on one connection), every assignment of pool ids (equal ids on different connections included unless the known finding is active), every order of answer submission, a duplicate submission, one fault in {none, requester gone, requester DPR, requester reconnects (abruptly / after DPR / after a watchdog timeout), other peer gone} at every point between arrival and submission",
           "thorough": "3 peers, 4 requests"}
 OUTSIDE = ["4 concurrent requests per peer", "two faults"]
 
 PERMS = [(0, 1, 2), (0, 2, 1), (1, 0, 2), (1, 2, 0), (2, 0, 1), (2, 1, 0)]
-FAULTS = ["none", "gone_1", "dpr_1", "reconnect_1", "gone_2"]
+FAULTS = ["none", "gone_1", "dpr_1", "reconnect_1", "gone_2", "dpr_reconnect_1", "dwa_timeout_reconnect_1"]
 
 
 def scenario(i1a: int, i1b: int, i2a: int, perm: int, fault: int, point: int, dup: int) -> bool:
@@ -62,6 +62,19 @@ def scenario(i1a: int, i1b: int, i2a: int, perm: int, fault: int, point: int, du
                 drain(c1)
             elif f == "reconnect_1":
                 n.close_connection_socket(c1, B.DISCONNECT_REASON_GONE_AWAY)
+                c1n, _s = b.make_ready(b.peers[0], "10.0.1.1")
+                conns.append(c1n)
+            elif f == "dpr_reconnect_1":
+                # the requester disconnects cleanly (DPR/DPA, then closes) and comes back
+                b.inject(c1, B.dpr(B.PEER_HOSTS[0], 4242, 4242))
+                drain(c1)
+                n.close_connection_socket(c1, B.DISCONNECT_REASON_GONE_AWAY)
+                c1n, _s = b.make_ready(b.peers[0], "10.0.1.1")
+                conns.append(c1n)
+            elif f == "dwa_timeout_reconnect_1":
+                n.send_dwr(c1)
+                drain(c1)
+                n.close_connection_socket(c1, B.DISCONNECT_REASON_DWA_TIMEOUT)
                 c1n, _s = b.make_ready(b.peers[0], "10.0.1.1")
                 conns.append(c1n)
         seq = list(order)
